@@ -483,7 +483,9 @@ func instantiationOverlay(repo string) map[string][]byte {
 		}
 	}
 	b.WriteString("}\n")
+	c := "package extension\n\nimport fpsadtpb \"github.com/google/fhir/go/proto/google/fhir/proto/r4/core/datatypes_go_proto\"\n\nvar fpsaInstances = [...]any{SetByURL[*fpsadtpb.String]}\n"
 	return map[string][]byte{
+		filepath.Join(repo, "internal", "element", "extension", "zz_fpsa_instances.go"): []byte(c),
 		filepath.Join(repo, "internal", "narrow", "zz_fpsa_instances.go"):   []byte(a.String()),
 		filepath.Join(repo, "internal", "fhirconv", "zz_fpsa_instances.go"): []byte(b.String()),
 	}
